@@ -127,13 +127,19 @@ def serde_stubs(cx, engine):
     ]
 
 
+def find_method(cx, file_part, method, self_part):
+    """function of `file_part` named `method` whose first parameter's type mentions `self_part` (no line numbers: edits
+    above an impl must not make the lookup fail)"""
+    for name, f in cx.fns.items():
+        if file_part in name and name.endswith("::" + method) and f.args and self_part in f.local_ty.get(f.args[0], ""):
+            return f
+    return None
+
+
 def explore_de(cx, res, method, extra_args=0, self_kind="Deserializer"):
     eng = C.make_engine(cx, [], loop_mode="unroll", unroll=2, timeout_s=120, max_paths=20000)
     eng.stubs = serde_stubs(cx, eng) + S.COMBINATOR_STUBS + S.CORE_STUBS
-    fn = None
-    for name, f in cx.fns.items():
-        if "serde-lexpr/src/value/de.rs:58" in name and name.endswith("::" + method):
-            fn = f
+    fn = find_method(cx, "serde-lexpr/src/value/de.rs", method, "Deserializer")
     if fn is None:
         raise Unsupported("deserializer method %s not found" % method)
     info = {}
@@ -268,12 +274,8 @@ def claim_access(cx0, res, kf):
     protocol violation (next_value_seed after the end)."""
     cx = merged_ctx()
     VAL = cx.enums["Value"]
-    for what, line, method in (("ListAccess", "de.rs:373", "next_element_seed"), ("MapAccess", "de.rs:434", "next_key_seed"),
-                               ("MapAccess", "de.rs:434", "next_value_seed")):
-        fn = None
-        for name, f in cx.fns.items():
-            if line in name and name.endswith("::" + method):
-                fn = f
+    for what, method in (("ListAccess", "next_element_seed"), ("MapAccess", "next_key_seed"), ("MapAccess", "next_value_seed")):
+        fn = find_method(cx, "serde-lexpr/src/value/de.rs", method, what + "<")
         if fn is None:
             res.error = "%s::%s not found" % (what, method)
             return
@@ -340,10 +342,7 @@ def claim_ser_scalars(cx0, res, kf):
     NN = cx.enums["N"]
     n_ok = 0
     for ty in ("i8", "i16", "i32", "i64", "u8", "u16", "u32", "u64", "f32", "f64", "bool", "char"):
-        fn = None
-        for name, f in cx.fns.items():
-            if "serde-lexpr/src/value/ser.rs:10" in name and name.endswith("::serialize_" + ty):
-                fn = f
+        fn = find_method(cx, "serde-lexpr/src/value/ser.rs", "serialize_" + ty, "Serializer")
         if fn is None:
             res.error = "serialize_%s not found" % ty
             return
@@ -467,7 +466,7 @@ CLAIMS = [
     Claim("c04_ser_scalars", "C04", "quick", claim_ser_scalars,
           "serialize_{i8..u64,f32,f64,bool,char}: the resulting Value holds the same mathematical integer (PosInt for >= 0, "
           "NegInt below), the exactly widened float, the same bool / char",
-          "every value of each scalar type", configs=("fast",), also=("C14",)),
+          "every value of each scalar type", configs=("fast",), also=("C14", "C18")),
     Claim("c18_error_category", "C18", "quick", claim_error_category,
           "serde_lexpr::Error::classify maps message errors (all the value deserializer produces) to Category::Data and I/O errors to Io",
           "all ErrorImpl variants", configs=("fast",)),
